@@ -39,10 +39,10 @@ def _case_term(l):
                        _KIND[kind], coq_bytes(group), coq_bytes(goname), coq_bytes(tag), coq_bytes(hname), coq_bytes(hdef),
                        "true" if bound == "1" else "false", coq_bytes(usage), coq_bytes(init), coq_bytes(envhand), coq_bytes(envobs),
                        _opt(env), _opt(jfile), _opt(jb64), _opt(final), _oracle(oracle)))
-    return "verdict_clean (check_case %s [%s] %s %s %s %s %s %s %s %s %s)" % (
-        isz, ";\n     ".join(fos), _toks(vec), _opt(cfgfile), "true" if b64set.startswith("1") else "false",
+    return "verdict_clean (check_case %s [%s] %s %s %s %s %s %s %s %s)" % (
+        isz, ";\n     ".join(fos), _toks(vec), _opt(cfgfile), "true" if b64set == "1" else "false",
         "true" if ok == "1" else "false", _toks(rest), "None" if help_ == "~" else ("(Some true)" if help_ == "1" else "(Some false)"),
-        callno, "true" if unchanged == "1" else "false", "true" if b64set.endswith("!") else "false")
+        callno, "true" if unchanged == "1" else "false")
 
 
 def c09_casesv(lines):
@@ -71,7 +71,7 @@ CFG = dict(
           "non-zero values in every field; (27 fields: all nine kinds at top level, nested and nested two deep, both tag syntaxes; 11 fields "
           "without tags; 10 fields with empty-name tags `,33,` `||def|` `|`, extra separators in the usage, an embedded struct, json tags "
           "incl. renamed keys and \"-\"); the tag text, group path and Go name of every field are reported and split by the MODEL; every field x every combination of (cli, env, JSON) mentioning it x JSON carrier (file via -config, "
-          "CFG_CONFIG_B64, both, none) with the other fields random; carriers whose document is empty / blank / not JSON / `{}` / `null` (CFG_CONFIG_B64 also: not base64) x which carriers exist, the other carrier holding a real object with non-default values (an error is accepted for a malformed document; a nil return is judged with the file named by -config as THE JSON source mentioning nothing); repeated flag whose last occurrence spells the default; targeted shapes (env set but empty, cli/env text equal to the "
+          "CFG_CONFIG_B64, both, none) with the other fields random; targeted shapes (env set but empty, cli/env text equal to the "
           "default's text while JSON differs, explicit empty cli value); JSON \"\" for string/[]byte and JSON null (= not mentioned; for []byte = nil); "
           "-help in several spellings with ShowUsage() observed; histories of 2-3 Parse calls on ONE FlagSet (a first call that fails after recording "
           "mentions — undefined flag, missing argument, malformed token, missing -config file, unparsable text — or succeeds, then calls with their own "
